@@ -27,6 +27,14 @@ RULE = ("random structures (dyadic-grid, half-grid, PDB-like 3-decimals in float
         "single-point arrangements; atoms placed on the faces of the box (index -1, 0, n-1, n, exact ties); "
         "one structure with more than 10 000 atoms; the weight of every table symbol and of near-miss symbols; element filter "
         "(with chain restriction) through PDB and mmCIF files, also at a path that held another structure before; bundled entries. "
+        "KERNEL streams (own random stream): small boxes with atoms at quarter / eighth / half voxel offsets, overlapping atoms, "
+        "common / rare / unknown symbols, dyadic and non-dyadic rates (scalar, per-axis, left out), origin and shape given / derived "
+        "(truncating boxes, so spheres and supports are clipped by the faces), chain subsets, to_volume or Density.from_structure, for "
+        "weight_type van_der_waals_radius (2-D and 3-D), scattering_factors / lowpass_scattering_factors (spline replaced by the "
+        "constant 1, and the real spline) and gaussian (Gaussian filter replaced by the identity, and the real filter); the "
+        "footprint array of the code for random radii 0..13 per axis; unknown weight-type strings; "
+        "Density.from_structure(path, filter_by_elements, filter_by_residues, chain, weight_type) on PDB / mmCIF files with ATOM and "
+        "HETATM records, element / residue sets incl. EMPTY sets and near-miss names. "
         "distinct = distinct (coordinates-hash, configuration) pairs; cases with < 2 atoms in the subset, or all atoms in "
         "one voxel with none outside, are trivial and not counted")
 ASSUMPTIONS = [
@@ -44,8 +52,19 @@ ASSUMPTIONS = [
     "the caller's argument arrays / lists and the structure's coordinate, element and chain columns must be bit-identical after a "
     "conversion (otherwise 'the origin given' and 'the structure' of the property are no longer what the caller holds)",
     "atoms whose quotient is exactly a half-integer on dyadic inputs are compared strictly (half-to-even)",
+    "kernels: the code evaluates vdwr / (rate * 100) in float64, the model exactly; a case where ceil / floor of the quantities the "
+    "code derives from it (sphere radius; support bounds ceil(p - R), floor(p + R)) differ between the two evaluations is counted "
+    "and not compared (non-dyadic rates such as 1.7 for carbon); spheres of more than 13 voxels radius are not compared (the "
+    "float norm <= 1 of the footprint was compared with the integer predicate exhaustively up to 13 only)",
+    "kernels: the VALUES of the scattering spline and of the Gaussian filter are floats and are not modelled: the spline is replaced "
+    "by the constant 1 (the grid is then the number of supports covering a voxel) and the filter by the identity (the grid is then "
+    "the deposit handed to the filter); with the real spline only 'exactly zero outside the modelled support' and the outcome "
+    "(returned / IndexError) are checked, for symbols the scattering table knows; with the real filter the preserved total mass is "
+    "only counted; the padding of the Gaussian deposit is recomputed in float64 the way the code does and handed to the model",
 ]
-TRUSTED = ["C10: numpy rint / add.at / float32 accumulation are exercised, not modelled beyond exact rationals"]
+TRUSTED = ["C10: numpy rint / add.at / float32 accumulation are exercised, not modelled beyond exact rationals",
+           "C10 kernels: numpy slicing / meshgrid / broadcasting semantics as mirrored by Model/C10K.lean; monkeypatching "
+           "tme.structure.atom_profile / tme.structure.Preprocessor inside the harness process"]
 
 KEY_TIE = "to_volume:derived-origin:exact-tie-odd-shift"
 
@@ -1234,6 +1253,473 @@ def run_corpus(ctx):
             ctx.count("corpus")
 
 
+
+# ----------------------------------------------------------------------------------------------------------------
+# kernels: van der Waals spheres, scattering-factor support, the deposit before the Gaussian filter, file filters
+# (Model/C10K.lean).  Float VALUES of the spline profile / the Gaussian filter are not modelled: the profile is replaced
+# by the constant 1 (then the grid is the number of supports covering a voxel, an integer) and the filter by the
+# identity (then the grid is the deposit handed to the filter); with the real profile only "zero outside the modelled
+# support" and the raised / returned outcome are compared.
+# ----------------------------------------------------------------------------------------------------------------
+K_COMMON = ["C", "N", "O", "H", "S", "P"]
+K_RARE = ["ZN", "FE", "MG", "CA", "NA", "CL", "SE", "K"]
+K_RATES_DYADIC = [0.5, 1.0, 2.0, 0.75, 1.5, 3.0, 1.0, 1.25]
+K_RATES_OTHER = [1.7, 0.34, 2.2, 1.35, 0.85, 1.1, 0.55, 1.52, 1.8, 0.9]
+K_WTS = ["van_der_waals_radius", "scattering_factors", "gaussian"]
+
+
+def vdwr_from_repo():
+    from tme.structure import Elements
+    e = Elements()
+    return {k: (None if not np.isfinite(v.vdwr) else v.vdwr) for k, v in e._elements.items()}, e._default.vdwr
+
+
+def check_vdwr_table(ctx):
+    t, dflt = vdwr_from_repo()
+    m = ctx.driver.call("c10.vdwrTable")
+    mt = {k: v for k, v in m}
+    ok = (len(m) == len(mt) and set(mt) == set(t) and dflt == 0
+          and all((mt[k] is None and t[k] is None) or (mt[k] is not None and t[k] is not None and float(t[k]) == float(mt[k])) for k in t))
+    ctx.obligation("vdwr-table", ok, None if ok else {"repo": {k: t[k] for k in t if mt.get(k, -1) != t[k]}, "default": dflt})
+    _TABLE["vdwr"] = t
+    return ok
+
+
+def _vdwr(sym):
+    return _TABLE["vdwr"].get(sym, 0)
+
+
+def _has_profile(sym):
+    """the scattering-factor table (float territory, not modelled) knows the symbol"""
+    c = _TABLE.setdefault("profile", {})
+    if sym not in c:
+        from tme.preprocessor import atom_profile
+        try:
+            atom_profile(atom=sym, M=1.35, method="peng1995", lfilter=False)
+            c[sym] = True
+        except Exception:  # noqa
+            c[sym] = False
+    return c[sym]
+
+
+def gen_kernel_case(rng, wt=None):
+    """small boxes (<= ~14 voxels per axis) with atoms at quarter / eighth-voxel offsets; exact half-voxel offsets only
+    where the float evaluation is exact (dyadic rate) and the returned origin is the one used for rounding"""
+    wt = wt or str(rng.choice(K_WTS, p=[0.5, 0.3, 0.2]))
+    nd = 3 if wt != "van_der_waals_radius" or rng.random() < 0.85 else 2
+    dy = rng.random() < 0.6
+    pool = K_RATES_DYADIC if dy else K_RATES_DYADIC + K_RATES_OTHER * 3
+    mode = str(rng.choice(["scalar", "per-axis", "none"], p=[0.4, 0.45, 0.15]))
+    if mode == "none":
+        rate, rvec = None, [1.0] * nd
+    elif mode == "scalar":
+        rate = float(rng.choice(pool))
+        rvec = [rate] * nd
+    else:
+        rate = [float(rng.choice(pool)) for _ in range(nd)]
+        rvec = list(rate)
+    exact = all(_is_dyadic([x]) for x in rvec)
+    origin_mode = str(rng.choice(["derived", "given", "given+shape", "shape"], p=[0.3, 0.2, 0.35, 0.15]))
+    adjust = origin_mode == "given"
+    offs = [0.0, 0.25, 0.75, 0.125, 0.375] + ([0.5, 0.5] if exact and not adjust else [])
+    n = int(rng.integers(1, 9))
+    E = rng.integers(2, 9, size=nd)
+    u = rng.integers(0, E + 1, size=(n, nd)) + rng.choice(offs, size=(n, nd))
+    if rng.random() < 0.3 and n > 2:
+        u[1] = u[0] + rng.integers(-1, 2, size=nd)          # overlapping spheres
+    base = rng.integers(-40, 41, size=nd) / 4.0
+    czyx = base + u * np.array(rvec)
+    elems = [str(rng.choice(K_COMMON)) if rng.random() < 0.75 else
+             (str(rng.choice(K_RARE)) if rng.random() < 0.7 or wt == "gaussian" else str(rng.choice(["Xx", "D", ""]))) for _ in range(n)]
+    if wt == "scattering_factors":
+        elems = [e if e in K_COMMON + K_RARE else "C" for e in elems]
+    labels = ["A", "B"] if rng.random() < 0.5 else ["A"]
+    chains = [labels[int(rng.integers(len(labels)))] for _ in range(n)]
+    mol = {"coords": czyx[:, ::-1].tolist(), "dtype": "float64", "elems": elems, "chains": chains, "kind": "kernel"}
+    origin = shape = None
+    if origin_mode in ("given", "given+shape"):
+        origin = (base + np.array(rvec) * rng.integers(-2, 3, size=nd)).tolist()
+    if origin_mode in ("given+shape", "shape"):
+        shape = [int(x) for x in rng.integers(2, 13, size=nd)]
+    chain = None
+    if len(labels) > 1 and rng.random() < 0.3 and "A" in chains:
+        chain = "A"
+    cfg = {"shape": shape, "rate": rate, "origin": origin, "chain": chain, "wt": wt,
+           "api": "from_structure" if rng.random() < 0.4 else "to_volume"}
+    if wt == "gaussian":
+        cfg["resolution"] = float(rng.choice([2.0, 3.0, 4.0, 6.0]))
+    if wt == "scattering_factors" and rng.random() < 0.06:
+        cfg["wt"] = "lowpass_scattering_factors"
+    return mol, cfg, rvec
+
+
+def _molmap_pad(resolution, rvec):
+    """the padding of `_position_to_molmap`, computed the way the code does (floats; not modelled)"""
+    sampling_rate = np.array(rvec, dtype=np.float64)
+    sigma_factor = 1 / (np.pi * np.sqrt(2))
+    pad = int(3 * resolution)
+    sigma = sigma_factor * resolution
+    sigma_grid = sigma / sampling_rate
+    smax = np.max(sigma_grid)
+    arr = np.arange(0, pad)
+    gaussian = np.exp(-0.5 * (arr / smax) ** 2) * np.power(2 * np.pi, -1.5) * np.power(sigma, -3.0)
+    pad_cutoff = np.max(arr[gaussian > 1e-8])
+    if arr.size != 0:
+        pad = int(pad_cutoff) + 1
+    return pad
+
+
+def call_kernel(st, cfg, hook=None):
+    """the real code with `weight_type` in force; hook: None | 'unit-profile' | 'identity-filter'"""
+    import tme.structure as S
+    from tme import Density
+    kw = {}
+    if cfg["shape"] is not None:
+        kw["shape"] = tuple(cfg["shape"])
+    if cfg["rate"] is not None:
+        kw["sampling_rate"] = cfg["rate"] if np.ndim(cfg["rate"]) == 0 else tuple(cfg["rate"])
+    if cfg["origin"] is not None:
+        kw["origin"] = tuple(cfg["origin"])
+    if cfg["chain"] is not None:
+        kw["chain"] = cfg["chain"]
+    kw["weight_type"] = cfg["wt"]
+    if "resolution" in cfg:
+        kw["weight_type_args"] = {"resolution": cfg["resolution"]}
+    saved = (S.atom_profile, S.Preprocessor)
+    try:
+        if hook == "unit-profile":
+            S.atom_profile = lambda *a, **k: (lambda d: np.ones(np.shape(d), dtype=np.float64))
+        if hook == "identity-filter":
+            class _Identity:
+                def gaussian_filter(self, template, sigma, cutoff_value=4.0, **kw2):
+                    return template
+            S.Preprocessor = _Identity
+        try:
+            if cfg["api"] == "from_structure":
+                d = Density.from_structure(st, **kw)
+                grid, origin, rate, meta = d.data, d.origin, d.sampling_rate, d.metadata
+            else:
+                grid, origin, rate = st.to_volume(**kw)
+                meta = st.metadata
+            return {"grid": np.array(grid), "origin": np.array(origin, dtype=np.float64).reshape(-1),
+                    "rate": np.array(rate, dtype=np.float64).reshape(-1), "outside": int(meta.get("nAtoms_outOfBound", -1))}
+        except Exception as e:  # noqa
+            return {"raised": type(e).__name__, "msg": str(e)[:200]}
+    finally:
+        S.atom_profile, S.Preprocessor = saved
+
+
+def _float_radii_agree(elems, rvec, wt, positions=None, shape=None):
+    """the code evaluates vdwr / (rate * 100) in float64, the model exactly: the two can differ when the quotient is
+    (nearly) an integer.  True iff ceil / floor of the quantities the code uses are the same in both."""
+    r = np.array(rvec, dtype=np.float64)
+    for i, e in enumerate(elems):
+        v = _vdwr(e)
+        if v is None:
+            return False
+        qf = np.divide(v, r * 100)
+        qx = [Fraction(int(v)) / (Fraction(float(x)) * 100) for x in rvec]
+        if wt == "van_der_waals_radius":
+            if [int(x) for x in np.ceil(qf)] != [int(-((-q).__floor__())) for q in qx]:
+                return False
+        elif positions is not None:
+            p = np.array(positions[i], dtype=np.float64)
+            if [int(x) for x in np.ceil(p - qf)] != [int(-((-(Fraction(int(a)) - q)).__floor__())) for a, q in zip(positions[i], qx)]:
+                return False
+            if [int(x) for x in np.floor(p + qf)] != [int((Fraction(int(a)) + q).__floor__()) for a, q in zip(positions[i], qx)]:
+                return False
+    return True
+
+
+def check_kernel_case(ctx, mol, cfg, rvec=None):
+    d = ctx.driver
+    nd = len(mol["coords"][0])
+    wt = cfg["wt"]
+    fam = "scattering" if "scattering" in wt else ("vdw" if wt == "van_der_waals_radius" else wt)
+    inp = {"mol": mol, "cfg": cfg, "kernel": True}
+    rvec = rvec or resolved_rate(cfg, nd)
+    sub = subset_indices(mol, cfg["chain"])
+    st = make_structure(mol)
+    atoms = [{"xyz": [_ratio(x) for x in row], "elem": e, "chain": c}
+             for row, e, c in zip(_coords_array(mol), mol["elems"], mol["chains"])]
+    margs = dict(nd=nd, atoms=atoms, shape=cfg["shape"],
+                 rate=None if cfg["rate"] is None else [_ratio(x) for x in np.atleast_1d(cfg["rate"])],
+                 origin=None if cfg["origin"] is None else [_ratio(x) for x in cfg["origin"]], chain=cfg["chain"], wt=wt)
+    if fam == "gaussian":
+        margs["pad"] = _molmap_pad(cfg["resolution"], rvec)
+    # ambiguity of the float rounding of (c - o) / r (as in the point-weight stream): such cases are counted, not compared
+    czyx = np.array([mol["coords"][i] for i in sub], dtype=np.float64).reshape(len(sub), nd)[:, ::-1]
+    o_used = np.array(cfg["origin"], dtype=np.float64) if cfg["origin"] is not None else (czyx.min(axis=0) if len(sub) else np.zeros(nd))
+    if fam == "gaussian" and len(sub):
+        o_used2 = czyx.min(axis=0) - margs["pad"] * np.array(rvec)
+    else:
+        o_used2 = o_used
+    amb = False
+    for oo in (o_used, o_used2):
+        nh, q = near_half(czyx, oo, np.array(rvec), "float64")
+        exact_in = _is_dyadic(czyx) and _is_dyadic(oo) and _is_dyadic(rvec) and _is_dyadic(q)
+        amb = amb or (bool(np.any(nh)) and not exact_in)
+    ctx.count("kernel:" + fam)
+    if amb:
+        ctx.count("kernel:skipped-near-tie-inexact")
+        return True
+    model = d.call("c10.toVolumeK", **margs)
+    hook = {"scattering": "unit-profile", "gaussian": "identity-filter"}.get(fam)
+    real = call_kernel(st, cfg, hook)
+    n_before = len(ctx.spec_failures) + len(ctx.disagreements)
+    # the positions of the atoms inside (point-weight model of the same arguments) decide whether the float radii /
+    # support bounds the code computes are the exact ones; if not, the case is counted and not compared - whatever the
+    # model's outcome (an exact R just below 1 gives an empty range, i.e. IndexError, where the float R == 1.0 does not)
+    if fam in ("vdw", "scattering") and model != "err:NaNRadius":
+        pos_all = d.call("c10.toVolume", **dict(margs, wt="atomic_number"))
+        if not isinstance(pos_all, str):
+            inside = [(i, p) for i, p in zip(sub, pos_all["allpos"]) if all(0 <= a < s for a, s in zip(p, pos_all["shape"]))]
+            kept_elems = [mol["elems"][i] for i, _ in inside]
+            kept_pos = [p for _, p in inside]
+            if any(_vdwr(e) is None for e in kept_elems):
+                ctx.count("kernel:nan-radius")
+                return True
+            if not _float_radii_agree(kept_elems, rvec, wt, kept_pos, pos_all["shape"]):
+                ctx.count("kernel:skipped-radius-quotient-rounds-differently")
+                return True
+            if fam == "vdw" and kept_elems and max(max(int(np.ceil(_vdwr(e) / (x * 100))) for x in rvec) for e in kept_elems) > 13:
+                ctx.count("kernel:skipped-radius>13-voxels")
+                return True
+    if isinstance(model, str):
+        if model == "err:NaNRadius":
+            ctx.count("kernel:nan-radius")
+            return True
+        ctx.agree("to_volume(" + fam + "):outcome", inp, "raised" if "raised" in real else "returned", "raised")
+        ctx.count("kernel-outcome:" + model)
+        if model == "err:IndexError" and "raised" in real:
+            ctx.agree("to_volume(scattering):empty range on the first or last axis raises IndexError", inp, real["raised"], "IndexError")
+        if model == "err:Mismatch" and "raised" in real:
+            ctx.agree("to_volume(gaussian):atoms outside the requested box make the deposit raise", inp, real["raised"], "ValueError")
+        return len(ctx.spec_failures) + len(ctx.disagreements) == n_before
+    if "raised" in real:
+        ctx.agree("to_volume(" + fam + "):outcome", inp, "raised:" + real["raised"] + ":" + real.get("msg", ""), "returned")
+        return False
+    G = real["grid"]
+    shape = [int(x) for x in model["shape"]]
+    ctx.agree("to_volume(" + fam + "):shape", inp, list(G.shape), shape)
+    ctx.agree("to_volume(" + fam + "):outside", inp, real["outside"], model["outside"])
+    mo = np.array([Fraction(a, b) for a, b in model["origin"]], dtype=np.float64)
+    ctx.agree("to_volume(" + fam + "):origin", inp, real["origin"].tolist(), mo.tolist(),
+              eq=lambda a, b: len(a) == len(b) and all(abs(x - y) <= 1e-9 * max(1.0, abs(x), abs(y)) for x, y in zip(a, b)))
+    ctx.agree("to_volume(" + fam + "):rate", inp, real["rate"].tolist(), [float(Fraction(a, b)) for a, b in model["rate"]])
+    if list(G.shape) != shape:
+        return False
+    M = dense_from_sparse(model["grid"], shape, 1.0)
+    what = {"vdw": "number of spheres covering each voxel", "scattering": "number of supports covering each voxel (profile == 1)",
+            "gaussian": "deposit handed to the Gaussian filter"}[fam]
+    same = bool(np.array_equal(G.astype(np.float64), M))
+    ctx.agree("to_volume(" + fam + "):" + what, inp, "equal" if same else
+              {"differs_at": np.argwhere(G.astype(np.float64) != M)[:5].tolist(), "real_total": float(G.sum()), "model_total": float(M.sum())}, "equal")
+    # ---- clauses on the real outputs
+    if fam == "vdw":
+        ro, rr = real["origin"], real["rate"]
+        nh, q = near_half(czyx, ro, rr, "float64")
+        exact_in = _is_dyadic(czyx) and _is_dyadic(ro) and _is_dyadic(rr) and _is_dyadic(q)
+        if bool(np.any(nh)) and not exact_in:
+            ctx.count("kernel:spec-skipped-near-tie-inexact")
+        else:
+            sp = d.call("c10.specVdw", nd=nd, origin=[_ratio(x) for x in ro], rate=[_ratio(x) for x in rr], shape=list(G.shape),
+                        atoms=[{"xyz": [_ratio(x) for x in mol["coords"][i]], "vdwr": int(_vdwr(mol["elems"][i]))} for i in sub])
+            S_ = dense_from_sparse(sp["grid"], list(G.shape), 1.0)
+            good = bool(np.array_equal(G.astype(np.float64), S_))
+            ctx.spec("van der Waals volume: a voxel holds the number of atoms (inside the grid) whose sphere of ceil(vdwr/(100*rate)) voxels "
+                     "around round((zyx - origin)/rate) contains it", inp, good,
+                     None if good else {"differs_at": np.argwhere(G.astype(np.float64) != S_)[:5].tolist()}, key="to_volume:vdw-voxel")
+            # symmetry of every sphere that is not clipped by the box
+            for p, k in zip(sp["idx"], sp["radii"]):
+                if all(k_ <= a < s - k_ for a, k_, s in zip(p, k, G.shape)) and all(0 <= a < s for a, s in zip(p, G.shape)):
+                    ctx.count("kernel:vdw-unclipped-sphere")
+                    break
+            else:
+                ctx.count("kernel:vdw-all-spheres-clipped")
+    if fam == "scattering":
+        # the real profile: nothing outside the modelled support, same outcome
+        real2 = call_kernel(st, cfg, None)
+        if not all(_has_profile(mol["elems"][i]) for i in sub):
+            ctx.count("kernel:scattering-real-profile-skipped-element-without-profile")
+        elif "raised" in real2:
+            ctx.agree("to_volume(scattering, real profile):outcome", inp, "raised:" + real2["raised"] + ":" + real2.get("msg", ""), "returned")
+        else:
+            G2 = real2["grid"]
+            good = G2.shape == M.shape and bool(np.all(G2[M == 0] == 0))
+            ctx.spec("scattering factors: no voxel outside the support range(ceil(p - R), floor(p + R)) of an atom receives a contribution",
+                     inp, good, None if good else {"nonzero_outside": np.argwhere((G2 != 0) & (M == 0))[:5].tolist()}, key="to_volume:scattering-support")
+            ctx.count("kernel:scattering-support-voxels-nonzero", int(np.count_nonzero(G2[M != 0])))
+            ctx.count("kernel:scattering-support-voxels", int(np.count_nonzero(M)))
+    if fam == "gaussian":
+        tot = float(sum(weights_for([mol["elems"][i] for i in sub], "atomic_number")[0]))
+        good = abs(float(G.astype(np.float64).sum()) - tot) <= 1e-6 * max(1.0, tot)
+        if model["outside"]:
+            # exactly one atom inside the requested box: numpy broadcasts its weight to every atom (mirrored by the model)
+            ctx.count("kernel:gaussian-single-weight-broadcast")
+            good = True
+        ctx.spec("gaussian: the array handed to the filter holds the summed atomic number of ALL atoms of the subset", inp, good,
+                 {"sum": float(G.sum()), "expected": tot}, key="to_volume:gaussian-deposit-total")
+        pad = margs["pad"]
+        nz = np.argwhere(G != 0)
+        good = bool(len(nz) == 0 or (nz.min() >= pad and np.all(nz.max(axis=0) + pad < np.array(G.shape))))
+        ctx.spec("gaussian: every atom is at least `pad` voxels from every face of the array", inp, good, {"pad": pad, "shape": list(G.shape)},
+                 key="to_volume:gaussian-margin")
+        if min(rvec) >= 0.5 and tot > 0 and not model["outside"]:
+            real2 = call_kernel(st, cfg, None)
+            if "raised" not in real2:
+                s2 = float(real2["grid"].astype(np.float64).sum())
+                ctx.count("kernel:gaussian-filtered-mass-within-2%" if abs(s2 - tot) <= 0.02 * tot else "kernel:gaussian-filtered-mass-off")
+    ctx.count("kernel-origin:" + ("given" if cfg["origin"] is not None else "derived") + ",shape:" + ("given" if cfg["shape"] is not None else "derived"))
+    ctx.count("kernel-rate:" + ("none" if cfg["rate"] is None else "scalar" if np.ndim(cfg["rate"]) == 0 else "per-axis")
+              + ("/dyadic" if _is_dyadic(rvec) else "/other"))
+    ctx.count("kernel-api:" + cfg["api"])
+    ctx.count("kernel-outside:" + (">0" if model["outside"] else "0"))
+    if len(sub) >= 2:
+        ctx.distinct(("kernel", fam, zlib.crc32(json.dumps(mol["coords"]).encode()), json.dumps(cfg, sort_keys=True)))
+    return len(ctx.spec_failures) + len(ctx.disagreements) == n_before
+
+
+def check_sphere_predicate(ctx, rng):
+    """the footprint array of the code (float norm <= 1) against the integer predicate, for radii 1..13 per axis"""
+    for _ in range(ctx.budget(20, 200)):
+        nd = 3 if rng.random() < 0.8 else 2
+        k = [int(x) for x in rng.integers(0 if rng.random() < 0.1 else 1, 14, size=nd)]
+        ka = np.array(k)
+        sl = tuple(slice(-x, x + 1) for x in ka)
+        with np.errstate(all="ignore"):
+            dist = np.linalg.norm(np.divide(np.mgrid[sl], ka.reshape((-1,) + (1,) * nd)), axis=0)
+        fp = (dist <= 1)
+        ds = np.argwhere(np.ones(fp.shape, dtype=bool)) - ka
+        m = ctx.driver.call("c10.sphere", k=k, ds=ds.tolist())
+        ctx.agree("vdw footprint (norm(mgrid / k) <= 1) == inSphere", {"k": k, "kernel": True}, fp.reshape(-1).tolist(), m)
+        ctx.count("kernel:footprint")
+
+
+def file_filter_case(ctx, rng):
+    """Density.from_structure(path, filter_by_elements, filter_by_residues, chain, weight_type): the records selected
+    by the file filters (element set, residue set, ATOM records; an EMPTY set filters nothing) and nothing else"""
+    from tme import Density, Structure
+    from pv import env
+    n = int(rng.integers(2, 12))
+    nd = 3
+    resn = ["GLY", "SER", "ALA", "HOH", "ZN"]
+    c = np.round(rng.integers(0, 80, size=(n, nd)) / 8.0 + rng.integers(-20, 20, size=nd), 3)
+    elems = [str(rng.choice(K_COMMON + ["ZN"])) for _ in range(n)]
+    chains = [str(rng.choice(["A", "B"])) for _ in range(n)]
+    res = [str(rng.choice(resn)) for _ in range(n)]
+    rec = ["HETATM" if (r in ("HOH", "ZN") and rng.random() < 0.8) else "ATOM" for r in res]
+    ext = "cif" if rng.random() < 0.4 else "pdb"
+    path = os.path.join(env.scratch(), "c10k_%08x.%s" % (int(rng.integers(1 << 32)), ext))
+    st = make_structure({"coords": c.tolist(), "dtype": "float64", "elems": elems, "chains": chains})
+    st.residue_name = np.array(res)
+    st.record_type = np.array(rec)
+    try:
+        st.to_file(path)
+        parsed = Structure.from_file(path, keep_non_atom_records=True)
+    except Exception:  # noqa
+        ctx.count("file-filter:skipped-io")
+        return
+    if parsed.atom_coordinate.shape[0] == 0 or str(parsed.atom_coordinate.dtype) not in ("float32", "float64"):
+        ctx.count("file-filter:skipped-io")
+        return
+    pc = parsed.atom_coordinate.astype(np.float64)
+    recs = [{"xyz": [_ratio(x) for x in row], "elem": str(e), "chain": str(ch), "res": str(r), "rec": str(t)}
+            for row, e, ch, r, t in zip(pc, parsed.element_symbol, parsed.chain_identifier, parsed.residue_name, parsed.record_type)]
+    pe, pr = sorted({x["elem"] for x in recs}), sorted({x["res"] for x in recs})
+
+    def pick(present, decoys):
+        m = rng.random()
+        if m < 0.3:
+            return None
+        if m < 0.4:
+            return []
+        k = int(rng.integers(1, len(present) + 1))
+        return sorted({present[int(i)] for i in rng.choice(len(present), size=k, replace=False)} | ({str(rng.choice(decoys))} if rng.random() < 0.3 else set()))
+    fe, fr = pick(pe, ["CA", "c", "SE", "Zn"]), pick(pr, ["GLYX", "gly", "SE", "HO"])
+    wt = str(rng.choice(["atomic_number", "van_der_waals_radius", "atomic_weight"]))
+    rate = float(rng.choice([1.0, 2.0, 0.5, 1.5]))
+    lo = pc[:, ::-1].min(axis=0)
+    origin = (np.floor(lo) - rng.integers(0, 2, size=nd)).tolist() if rng.random() < 0.7 else None
+    shape = [int(x) for x in rng.integers(3, 14, size=nd)] if (origin is not None and rng.random() < 0.7) else None
+    chain = "A" if rng.random() < 0.3 else None
+    kw = {"weight_type": wt, "sampling_rate": rate}
+    if origin is not None:
+        kw["origin"] = tuple(origin)
+    if shape is not None:
+        kw["shape"] = tuple(shape)
+    if chain is not None:
+        kw["chain"] = chain
+    inp = {"file_records": recs, "filter_by_elements": fe, "filter_by_residues": fr, "kw": {k: (list(v) if isinstance(v, tuple) else v) for k, v in kw.items()},
+           "file_ext": ext, "kernel": True}
+    # near ties of the parsed (3-decimal) coordinates: counted, not compared
+    o_used = np.array(origin) if origin is not None else None
+    model = ctx.driver.call("c10.fromFileK", nd=nd, recs=recs, elems=fe, residues=fr, shape=shape, rate=[_ratio(rate)],
+                            origin=None if origin is None else [_ratio(x) for x in origin], chain=chain, wt=wt)
+    try:
+        dd = Density.from_structure(path, filter_by_elements=None if fe is None else set(fe),
+                                    filter_by_residues=None if fr is None else set(fr), **kw)
+        real = {"grid": np.asarray(dd.data), "origin": np.asarray(dd.origin, dtype=np.float64).reshape(-1),
+                "outside": int(dd.metadata.get("nAtoms_outOfBound", -1))}
+    except Exception as e:  # noqa
+        real = {"raised": type(e).__name__}
+    ctx.count("file-filter:" + ext + ":" + ("elements" if fe else "-") + "+" + ("residues" if fr else "-") + (":empty-set" if fe == [] or fr == [] else ""))
+    if isinstance(model, str):
+        ctx.agree("from_structure(path, filters):outcome", inp, "raised" if "raised" in real else "returned", "raised")
+        ctx.count("file-filter-outcome:" + model)
+        return
+    if "raised" in real:
+        ctx.agree("from_structure(path, filters):outcome", inp, "raised:" + real["raised"], "returned")
+        return
+    sel = [x for x in recs if (not fe or x["elem"] in fe) and (not fr or x["res"] in fr) and x["rec"] == "ATOM" and (chain is None or x["chain"] == chain)]
+    cz = np.array([[float(Fraction(a, b)) for a, b in x["xyz"]] for x in sel], dtype=np.float64).reshape(len(sel), nd)[:, ::-1]
+    oo = o_used if o_used is not None else cz.min(axis=0)
+    nh, q = near_half(cz, oo, np.array([rate] * nd), "float64")
+    if bool(np.any(nh)) and not (_is_dyadic(cz) and _is_dyadic(oo) and _is_dyadic(q)):
+        ctx.count("file-filter:skipped-near-tie-inexact")
+        return
+    G = real["grid"]
+    shape_m = [int(x) for x in model["shape"]]
+    ctx.agree("from_structure(path, filters):shape", inp, list(G.shape), shape_m)
+    ctx.agree("from_structure(path, filters):outside", inp, real["outside"], model["outside"])
+    if list(G.shape) != shape_m:
+        return
+    unit = 1e-9 if wt == "atomic_weight" else 1.0
+    M = dense_from_sparse(model["grid"], shape_m, unit)
+    ctx.agree("from_structure(path, filters):grid of exactly the selected records", inp,
+              "close" if grids_close(G.astype(np.float64), M) else {"real_total": float(G.sum()), "model_total": float(M.sum())}, "close")
+    # the clause, independently of the model: total == summed weight of the selected records inside
+    if wt != "van_der_waals_radius":
+        w, u = weights_for([x["elem"] for x in sel], wt)
+        pos = np.rint((cz - oo) / rate).astype(int) if len(sel) else np.zeros((0, nd), dtype=int)
+        if origin is not None and shape is None and len(sel):
+            pos = pos - pos.min(axis=0)
+        inside = [bool(np.all(p >= 0) and np.all(p < np.array(G.shape))) for p in pos]
+        exp = sum(wi for wi, f in zip(w, inside) if f) * u
+        good = abs(float(G.astype(np.float64).sum()) - exp) <= 1e-4 * max(1.0, abs(exp))
+        ctx.spec("file filters: the grid total is the summed weight of exactly the selected records inside the grid", inp, good,
+                 {"sum": float(G.sum()), "expected": exp, "selected": len(sel)}, key="from_structure:file-filters-total")
+    if len(sel) >= 2:
+        ctx.distinct(("file-filter", zlib.crc32(json.dumps(recs).encode()), json.dumps([fe, fr, inp["kw"]], sort_keys=True)))
+
+
+def run_kernels(ctx, rng):
+    check_vdwr_table(ctx)
+    check_sphere_predicate(ctx, rng)
+    for i in range(ctx.budget(500, 5000)):
+        mol, cfg, rvec = gen_kernel_case(rng)
+        check_kernel_case(ctx, mol, cfg, rvec)
+    # unknown weight type: NotImplementedError before anything else (even with a malformed rate)
+    mol, cfg, rvec = gen_kernel_case(rng, wt="van_der_waals_radius")
+    for wt in ("vdw", "Gaussian", ""):
+        c2 = dict(cfg, wt=wt, rate=[1.0, 2.0])
+        real = call_kernel(make_structure(mol), c2)
+        ctx.agree("to_volume:unknown weight type", {"mol": mol, "cfg": c2, "kernel": True}, real.get("raised"), "NotImplementedError")
+        ctx.count("kernel:unknown-weight-type")
+    for i in range(ctx.budget(100, 1000)):
+        file_filter_case(ctx, rng)
+
+
 def run(ctx):
     rng = ctx.rng("main")
     if not check_table(ctx):
@@ -1328,6 +1814,9 @@ def run(ctx):
                 cfg["shape"] = [min(40, x) for x in cfg["shape"]]
             check_case(ctx, mol, cfg)
 
+    # ---- the other weight types (spheres, supports, the deposit before the Gaussian filter) and the file filters
+    run_kernels(ctx, ctx.rng("kernels"))
+
 
 def search(ctx):
     """Correspondence / an obligation broke without a failing input: sweep single atoms over sub-voxel offsets on every
@@ -1389,6 +1878,15 @@ def replay(ctx, rec):
         element_filter(ctx, ctx.rng("replay"), inp["mol"], inp["cfg"], E=set(inp["elements_kept"]), decoy=inp.get("decoy"),
                        filters=inp.get("filters_passed"), ext=inp.get("file_ext"), fchain=inp.get("file_chain"),
                        same_path=bool(inp.get("same_path")), previous=inp.get("previous_at_same_path"))
+    elif inp.get("kernel"):
+        check_vdwr_table(ctx)
+        if "mol" in inp and "cfg" in inp:
+            check_kernel_case(ctx, inp["mol"], inp["cfg"])
+        elif "k" in inp:
+            check_sphere_predicate(ctx, ctx.rng("replay"))
+        else:
+            for _ in range(200):
+                file_filter_case(ctx, ctx.rng("replay"))
     elif "mol" in inp and "cfg" in inp:
         check_case(ctx, inp["mol"], inp["cfg"], history=inp.get("history"), mol0=inp.get("mol0"))
         if "chains_kept" in inp:
